@@ -32,6 +32,11 @@ def campaign(c):
     for i in range(n):
         r = c.rng.fork('c03-%d' % i)
         netscen.run_scenario(c, r, 'l4', [kinds[i % len(kinds)]] if i < 5 * len(kinds) else kinds, project)
+    # long histories on one flow: checksum defects that depend on the VALUE of the sum (a lost carry in an incremental update, a
+    # special case for one residue) show up in a fraction of the segments only
+    for i in range(6 if c.quick else 120):
+        r = c.rng.fork('long%d' % i)
+        netscen.run_scenario(c, r, 'l4', [['icmp-long', 'udp-long', 'tcp-long'][i % 3]], project)
     # crafted: UDP sums folding to zero
     for i in range(12 if c.quick else 200):
         r = c.rng.fork('zf%d' % i)
